@@ -78,7 +78,9 @@ def run(C, R):
         # ---------------- I1 + I3
         for sp in sorted(roles.state_structs):
             for m in entry_methods(F, CG, sp):
-                paths = E.run(m['path'])
+                # loop-bound states included: the typestate invariant is also a loop invariant (evaluated at the
+                # loop head after two full iterations), so a loop that never terminates cannot hide a mismatch
+                paths = E.run(m['path'], include_loopbound=True)
                 state_paths[m['path']] = paths
                 R.add_paths(m['path'], len(paths))
                 check_typestate(R, E, F, roles, sp, m, paths, 'C01.I1')
